@@ -62,11 +62,22 @@ class Ideal:
             by.setdefault(q, []).append(p)
         for q, ps in by.items():
             prev = [e[0] for e in self.entries(q)]
-            if self.st(q) != "ok" or (prev and min(ps) <= max(prev)):
+            if self.st(q) != "ok" or (prev and min(ps) != max(prev) + 1):
                 self.state[q] = "nonconf"
             self.blessed.pop(q, None)
         for q, p, t in batch:
             self.seq.setdefault(q, []).append([p, t])
+
+    def refused(self, batch):
+        """a batch that was refused with ErrKvCacheFull has still moved the sliding window: harmless when the batch
+        continues its sequences where they end (C06_window_complete_appends), outside the protocol otherwise"""
+        by = {}
+        for q, p, t in batch:
+            by.setdefault(q, []).append(p)
+        for q, ps in by.items():
+            prev = [e[0] for e in self.entries(q)]
+            if prev and min(ps) != max(prev) + 1:
+                self.state[q] = "nonconf"
 
     def copy(self, src, dst, n):
         if src == dst:
@@ -183,6 +194,7 @@ def monitor_sub(case, obs, k, w):
                 low = {}
                 for q, p, _ in batch:
                     low[q] = min(low.get(q, p), p)
+                ideal.refused(batch)
                 if wrapped:
                     # WrapperCache unwinds the caches that accepted the batch with Remove(seq, pos_k, MaxInt32).  With fresh
                     # positions (what the interface is used with) that removes the batch only; a batch that re-sends positions
@@ -824,8 +836,8 @@ def search_around(ctx, binp, case):
     return False
 
 
-def run(ctx):
-    ctx.rule = ("cases: operation histories on one kvcache.Causal (plain or sliding window 1..8; 1-3 sequences + an unannounced one; capacity 2..12; "
+def describe(ctx):
+    ctx.rule = ("cases: operation histories on one kvcache.Causal (plain or sliding window 1..8) or a WrapperCache(sliding window, plain); 1-3 sequences + an unannounced one; capacity 2..12; "
                 "batch 1..4; CachePadding 1/2/4/32, MaskBatchPadding 1/4/32, permuted V, f16 mask, 1-3 layers, graph sizes forcing 0/1/2/many moves per "
                 "compute): classes mixed / defrag (fill, punch holes at the front, keep the tail, store a batch larger than any hole) / full / copy-then-diverge / "
                 "remove prefix-middle-suffix / wild (gaps, re-used positions) / swa (append beyond the window, LoadCacheSlot protocol, CopyPrefix); every history ends "
@@ -837,7 +849,11 @@ def run(ctx):
     ctx.assumptions = ["every successful StartForward is followed by Put on every layer (the runner does)",
                        "non-empty batches, positions >= 0 and < MaxInt32, Remove called with begin <= end",
                        "after a failed Remove the contents of that sequence are unspecified until Remove(seq, 0, MaxInt32) (kvcache/cache.go)",
-                       "sliding-window caches: 'nothing missing' is required only for sequences continued by appending or resumed after CanResume answered true (kvcache/cache.go)"]
+                       "sliding-window caches: 'nothing missing' is required only for sequences continued exactly where they end (also when a batch was refused) or resumed after CanResume answered true (kvcache/cache.go); the known finding C06-swa-middle-remove is the exception"]
+
+
+def run(ctx):
+    describe(ctx)
     ctx.proof_stage(["KvCache"], "KvCache/Properties_C06.v", extra_targets=["KvCache/Corr.v"])
     binp = ctx.go_build("c06")
     if not binp:
@@ -856,6 +872,7 @@ def run(ctx):
 
 def replay(ctx, path):
     r = json.load(open(path))
+    describe(ctx)
     ctx.log("replaying", path)
     case = (r.get("replay") or {}).get("case") or (r.get("disagreements") or [{}])[0].get("case") or r.get("case")
     ctx.proof_stage(["KvCache"], "KvCache/Properties_C06.v", extra_targets=["KvCache/Corr.v"])
@@ -876,13 +893,24 @@ MANIFEST = {
     "engine": "coq-model+go-differential",
     "level_claimed": {
         "category": "proof",
-        "text": "Coq theorems about an executable model of kvcache/causal.go (metadata and physical K/V data kept separately; StartForward with "
-                "sliding-window eviction, first-fit placement, defrag-and-retry move by move, Put, buildMask with paddings, CopyPrefix, Remove with shift, CanResume). "
-                "The model is tied to the real kvcache.Causal by replaying generated operation histories on both and comparing the complete state after every "
-                "operation inside Coq (vm_compute); the property is monitored directly on the mask and K/V views returned by Get.",
+        "text": "Coq theorems (16, closed under the global context) about an executable model of kvcache/causal.go in which the cell metadata and "
+                "the physical K/V rows per location are separate: for EVERY history of operations (forward batches mixing sequences, CopyPrefix, "
+                "Remove of prefixes/middles/suffixes with shift and the prescribed clean-up on failure, CanResume), every capacity, padding and window, the "
+                "cache state refines a multiset specification (C06_refines, by induction over the operation list; the defragmentation loop with its "
+                "pending block moves is proved to keep every cell with its row and to compact the cache); after a successful StartForward+Put the rows at "
+                "the unmasked locations are exactly the specified visible history of each batch token (C06_visible_exact); ErrKvCacheFull is returned "
+                "exactly when the batch does not fit and leaves every live entry unchanged (C06_full_is_error). Against the ideal history that never "
+                "forgets: exact for caches without a window (C06_complete_no_window); for sliding-window caches exact IFF nothing evicted lies in the "
+                "token's window (C06_window_complete_partial), which holds for append/clear runs (C06_window_complete_appends) and fails after Remove of a "
+                "middle range (C06_window_complete_refuted = known finding). The model is tied to the real kvcache.Causal / WrapperCache by replaying "
+                "generated histories on both and comparing the complete state and result after every operation inside Coq (vm_compute); the property is "
+                "monitored directly on the mask and the K/V views returned by Get.",
         "design_ref": "DESIGN.md section 5, C06",
     },
-    "level_note": "Trusted: Coq kernel/vm_compute; the model-to-code tie is differential testing (generator-bounded) on a fake ml.Backend; see notes/C06.md for the "
-                  "hypotheses of each theorem and for what is partial.",
+    "level_note": "Trusted: Coq kernel/vm_compute; the model-to-code tie is differential testing (generator-bounded) on a fake ml.Backend. Theorems describe the "
+                  "code with fixes/C06-defrag-merge.patch and fixes/C06-canresume-window.patch (the defects of the code as found are theorems about fx=false). "
+                  "Hypotheses: non-empty batches, positions in [0,MaxInt32), Remove with begin<=end, failing Remove followed by Remove(seq,0,MaxInt32). Partial: "
+                  "truncate-and-resume on sliding-window caches is covered by C06_can_resume_sound but not assembled into a protocol-level completeness theorem; "
+                  "the WrapperCache model has no theorems of its own; reserve=true, SetCausal and EncoderCache are not modelled. See notes/C06.md.",
     "technique": "Coq proof (invariants + refinement by induction over the operation list) + model/implementation differential check after every operation",
 }
